@@ -161,6 +161,22 @@ func floatConversionError(v ssa.Value, depth int) bool {
 		case "encoding/json.Float64", "strconv.ParseFloat":
 			return true
 		}
+		// … handed on by a helper of the module every non-nil error of
+		// which is that error (`num, err := toNumber(val)`)
+		if sc := c.Call.StaticCallee(); sc != nil && !c.Call.IsInvoke() && inModule(sc) && sc.Blocks != nil && x.Index < sc.Signature.Results().Len() {
+			n := 0
+			for _, r := range returnsOf(sc) {
+				rv := stripConvPlain(r.Results[x.Index])
+				if isNilConst(rv) {
+					continue
+				}
+				if !floatConversionError(rv, depth+1) {
+					return false
+				}
+				n++
+			}
+			return n > 0
+		}
 	}
 	return false
 }
